@@ -209,10 +209,12 @@ struct ExecResult
 };
 
 // One execution of a program under a schedule (prefix of forced choices, then `fallback`).
-ExecResult execute(const Program &prog, const std::vector<int> &prefix, std::function<int(int, bool)> fallback, int preemption_bound)
+ExecResult execute(const Program &prog, const std::vector<int> &prefix, std::function<int(int, bool)> fallback, int preemption_bound,
+                   int spurious_bound)
 {
     sched::reset();
     sched::Scheduler &s = sched::S();
+    s.spurious_bound = spurious_bound;
     World w;
     W = &w;
     for (int i = 0; i < kQueues; i++)
@@ -318,7 +320,8 @@ void t_sched(Src &s, Case &c)
             return 0;
         return (int)src->below((uint64_t)nopts);
     };
-    ExecResult r = execute(p, {}, fallback, INT_MAX);
+    int spurious = (int)src->below(3); // up to two spurious condition-variable wake-ups in this execution
+    ExecResult r = execute(p, {}, fallback, INT_MAX, spurious);
     c.log(" schedule: %s(%d pre-emptions)", trace_str(r.trace).c_str(), r.preemptions);
     // non-trivial: >= 2 threads operate on the same object and the schedule pre-empted between them
     bool shared = false;
@@ -383,15 +386,26 @@ void t_sched_enum(Src &s, Case &c)
     std::vector<Program> progs = small_programs();
     size_t pi = (size_t)s.below(progs.size());
     const Program &p = progs[pi];
-    int bound = tier() ? 4 : 3;
-    c.log("program #%zu: %s; every schedule with <= %d pre-emptions: ", pi, program_str(p).c_str(), bound);
+    // the pre-emption bound depends on the size of the schedule tree: programs with three
+    // threads of which two park have by far the largest one
+    int nwait_threads = 0;
+    for (auto &th : p)
+        for (auto &o : th)
+            if (o.k == O_WAIT)
+            {
+                nwait_threads++;
+                break;
+            }
+    bool big = p.size() >= 3 && nwait_threads >= 2;
+    int bound = big ? (tier() ? 2 : 1) : (tier() ? 4 : 3);
+    c.log("program #%zu: %s; every schedule with <= %d pre-emptions and <= 1 spurious condition-variable wake-up: ", pi, program_str(p).c_str(), bound);
     c.nontrivial = true;
     // stateless depth-first search over the schedule tree
     std::vector<int> prefix;
     long execs = 0;
     for (;;)
     {
-        ExecResult r = execute(p, prefix, nullptr, bound);
+        ExecResult r = execute(p, prefix, nullptr, bound, 1);
         execs++;
         if (!r.sig.empty())
         {
@@ -415,6 +429,7 @@ void t_sched_enum(Src &s, Case &c)
         }
     }
     c.log("%ld executions", execs);
+    fprintf(stderr, "sched_enum program #%zu: %ld executions\n", pi, execs);
     c.work = (uint64_t)execs;
 }
 
@@ -430,7 +445,7 @@ VP_TARGET("sched", t_sched,
           "notified after its owner destroyed it, every thread finishes once everything still queued is woken (no lost wake-up / "
           "deadlock), safe_queue pops = pushes with per-producer order; non-trivial = >= 2 threads use the same object and >= 1 pre-emption");
 VP_TARGET("sched_enum", t_sched_enum,
-          "16 small programs (2-3 threads x <= 5 operations) x EVERY schedule with <= 3 (quick) / <= 4 (thorough) pre-emptions, by "
+          "16 small programs (2-3 threads x <= 5 operations) x EVERY schedule with <= 3 (quick) / <= 4 (thorough) pre-emptions (1 / 2 for the two programs with three threads of which two park) and <= 1 spurious condition-variable wake-up, by "
           "stateless depth-first search over the scheduler's decision tree; one case = one program, its executions are counted as "
           "work units",
           enum_size);
